@@ -103,7 +103,7 @@ MUTANTS = {
         ("semantic-action-cache-by-name", "tatsu/contexts/core.py", "        return find_cached_semantic_action(self.semantics, name)", "        cache = globals().setdefault('_ACTION_CACHE', {})\n        if name not in cache:\n            cache[name] = find_cached_semantic_action(self.semantics, name)\n        return cache[name]", "caught"),
         ("global-default-builder", "tatsu/contexts/core.py", "        if not self.config.semantics and asmodel:\n            self.config.semantics = ModelBuilderSemantics()\n        self.semantics: type | None = config.semantics", "        if not self.config.semantics and asmodel:\n            self.config.semantics = globals().setdefault('_SHARED_BUILDER', ModelBuilderSemantics())\n        self.semantics: type | None = config.semantics", "caught-thorough-history"),
         ("revert-firstset-fix", "tatsu/peg/base.py", "self._firstset = self._first(k, self._rule_firstsets())", "self._firstset = self._first(k, defaultdict(set))", "caught"),
-        ("synthesize-reads-its-base-from-the-registry", "tatsu/objectmodel/synth.py", "    if __synth_base not in bases:\n        bases = (*bases, __synth_base)\n", "    if SynthNode not in bases:\n        bases = (*bases, SynthNode)\n", "caught"),
+        ("synthesize-reads-its-base-from-the-registry", "tatsu/objectmodel/synth.py", "    if __synth_base not in bases:\n        bases = (*bases, __synth_base)\n", "    if SynthNode not in bases:\n        bases = (*bases, SynthNode)\n", "caught-thorough-history"),
         ("no-synth-lock", "tatsu/objectmodel/synth.py", "    with __registry_lock:\n", "    if True:\n", "caught-thorough"),
         ("no-optimize-lock", "tatsu/peg/base.py", "        with _optimize_lock:\n            if isinstance(self._optimized, Grammar):", "        if True:\n            if isinstance(self._optimized, Grammar):", "caught-thorough"),
         # negative controls
